@@ -44,7 +44,7 @@ func (f *Divide) Call(s *slip.Scope, args slip.List, depth int) (quot slip.Objec
 	slip.CheckArgCount(s, depth, f, args, 1, -1)
 	for pos, a := range args {
 		if quot == nil {
-			quot = a
+			quot = canonicalNumber(a)
 			if _, ok := quot.(slip.Number); !ok {
 				slip.TypePanic(s, depth, "numbers", quot, "number")
 			}
@@ -100,7 +100,7 @@ func (f *Divide) Call(s *slip.Scope, args slip.List, depth int) (quot slip.Objec
 			continue
 		}
 		var arg slip.Object
-		arg, quot = slip.NormalizeNumber(a, quot)
+		arg, quot = slip.NormalizeNumber(canonicalNumber(a), quot)
 		switch ta := arg.(type) {
 		case slip.Fixnum:
 			if ta == 0 {
